@@ -56,7 +56,7 @@ func allocSpec(nontrivial string, guards ...guard) *propSpec {
 		rule:        allocRule + nontrivial,
 		assumptions: assume("Free of a super-prefix covering several blocks and wrong-family Free on the IPv6 allocator are outside the statement and are not generated"),
 		runs: []runSpec{
-			{engine: "alloc", loglevel: "fatal", qBatches: 16, qCases: 750, tBatches: 64, tCases: 6000},
+			{engine: "alloc", loglevel: "fatal", qBatches: 16, qCases: 750, tBatches: 64, tCases: 12000},
 			// the same histories against a 32-bit build of the allocators (word-size dependent shifts and
 			// conversions of block indexes); pools of 2^32 blocks and more are skipped there
 			{engine: "alloc", pkg: "./cmd/varith", goarch: "386", qBatches: 8, qCases: 250, tBatches: 32, tCases: 1500},
@@ -70,7 +70,7 @@ func prefixSpec(nontrivial string, guards ...guard) *propSpec {
 		level:       "exploration",
 		rule:        "each history fixes a pool (/56-/64, /60-/64, /62-/64, /64-/64, /48-/52, /120-/124, ...), 1-6 clients (every DUID kind incl. opaque) and 20-60 messages (SOLICIT/REQUEST/RENEW/REBIND, 0-3 IA_PD x 0-3 IAPrefix hints from {none, length-only, length 0, own prefix, in-pool free/other's/own block, out-of-pool, longer than the allocation size, length > 128}, 0-2 relay layers, retransmissions) sent as wire bytes through HandleMsg6 into the plugin obtained from Plugin.Setup6; a per-client prefix model decides every reply and fresh clients drain the pool at the end (conservation). " + nontrivial,
 		assumptions: assume("no lease expiry/GC exists in the code: 'for as long as the server runs' = the length of the history; the thorough tier adds instances that are driven again after a real wait of one hour (every lifetime has run out: lapsed blocks may go to anyone, never to two clients at once)", "length-only hints (::/64) are outside C09's obligations"),
-		runs:        []runSpec{{engine: "prefix", qBatches: 32, qCases: 16, tBatches: 128, tCases: 400}, {engine: "prefixconc", race: true, parallel: 8, qBatches: 8, qCases: 12, tBatches: 64, tCases: 100}},
+		runs:        []runSpec{{engine: "prefix", qBatches: 32, qCases: 16, tBatches: 128, tCases: 1200}, {engine: "prefixconc", race: true, parallel: 8, qBatches: 8, qCases: 12, tBatches: 64, tCases: 300}},
 		guards:      guards,
 	}
 }
@@ -165,14 +165,14 @@ var specs = map[string]*propSpec{
 		level:       "exploration",
 		rule:        "per case one of 7 plugin chains (empty, option plugins, range, file, a NAK-producing plugin, yiaddr-assigning + mtu/staticroute/autoconfigure, ipv6only+sleep+nbp) in a fresh server process inside the private network namespace (listener bound or unbound, both arrival links): (1) the full matrix of 256 opcodes x 23 message-type shapes (absent, 0..18, 255, two-byte, empty) with random relay/broadcast/ciaddr fields, option 61/82/116 presence; (2) 1500 (quick) / 6000 (thorough) generated datagrams (all header fields, hlen 0..16 and beyond, option table with wrong lengths and lying length bytes, pads) of which a third are mutated (bit/byte flips, truncation at structural boundaries, length +-1, duplication, splice, large trailers). Every UDP write (capture hook) and every sniffed link-level frame counts as a reply. Oracle: answered only if the codec accepts it, op=BOOTREQUEST and type DISCOVER/REQUEST; reply fields/echo/type per the statement, at most one reply. Distinct by (chain, opcode class, type bytes, answered?) plus every distinct answered datagram",
 		assumptions: assume("that a non-nil final response is actually sent is C13's statement", "hlen > 16 is clipped by the codec and only checked for no-crash"),
-		runs:        []runSpec{{engine: "match4", netns: true, parallel: 16, qBatches: 8, qCases: 1, tBatches: 160, tCases: 1, stall: 5 * time.Minute}, wireRun(0, 6), wireVarRun(), raceSlice()},
+		runs:        []runSpec{{engine: "match4", netns: true, parallel: 16, qBatches: 8, qCases: 1, tBatches: 320, tCases: 1, stall: 5 * time.Minute}, wireRun(0, 6), wireVarRun(), raceSlice()},
 		guards:      []guard{{"match4.replies_to_type_1", 200, "replies to DISCOVER"}, {"match4.replies_to_type_3", 200, "replies to REQUEST"}, {"match4.dropped", 10000, "dropped datagrams"}, {"match4.replies_l2", 20, "link-level replies"}},
 	},
 	"C12": {
 		level:       "exploration",
 		rule:        "per case one of 5 chains (empty; server_id+dns+searchdomains; prefix+dns; file+nbp; sleep+synthetic) in a fresh server process inside the private network namespace, listener bound to ve0 or unbound: (1) matrix of message types 0..255 x client-id present/absent x rapid-commit present/absent, each sent plain and wrapped in 0-4 Relay-Forward layers with random link/peer addresses and Interface-ID/Remote-ID/client-link-layer options, from random global or link-local sources and ports, arriving on ve0 or vf0; (2) 1200 (quick) / 5000 (thorough) generated datagrams (every option kind incl. nested IA options, IAPrefix lengths 0 and > 128, relay depth to 32, Relay-Reply in the wrong place, relay without relay-message) of which a third are mutated. Oracle: answered only if the codec finds an inner message of a supported type; reply type table, xid, client-id, per-layer relay mirror, innermost message equal to the stateless chain's answer to the un-relayed message, destination = source, interface pin iff link-local. Distinct by (chain, type, relay depth, source class, answered?) plus every distinct answered datagram",
 		assumptions: assume("requests without a client identifier must not get one invented; relay chains containing Relay-Reply layers are no-crash only"),
-		runs:        []runSpec{{engine: "match6", netns: true, parallel: 10, qBatches: 10, qCases: 1, tBatches: 200, tCases: 1, stall: 5 * time.Minute}, wireRun(0, 6), wireVarRun(), raceSlice()},
+		runs:        []runSpec{{engine: "match6", netns: true, parallel: 10, qBatches: 10, qCases: 1, tBatches: 600, tCases: 1, stall: 5 * time.Minute}, wireRun(0, 6), wireVarRun(), raceSlice()},
 		guards:      []guard{{"match6.replies", 2000, "replies"}, {"match6.replies_relayed", 500, "relayed replies"}, {"match6.replies_link_local", 500, "link-local replies"}, {"match6.dropped", 5000, "drops"}},
 	},
 	"C13": {
@@ -191,14 +191,14 @@ var specs = map[string]*propSpec{
 		level:       "exploration",
 		rule:        "each case is one accepted server_id spelling (DHCPv6: LL/LLT in every keyword spelling x MAC of 6/8/20 bytes in colon/hyphen/dot form; DHCPv4: dotted and v4-mapped address) hosted in a fresh server process; DHCPv6: all 256 message types x {no, matching, other kind, same kind other MAC, longer, shorter, opaque, enterprise, LLT with other time} Server Identifier x relay depth 0-2 decided by the RFC 8415 section 16 table; DHCPv4: siaddr {absent, zero, own, other} x option 54 {absent, zero, own, other} x {DISCOVER, REQUEST} x with/without parameter list; every answered message must carry exactly this server's identifier (option 54 and siaddr for DHCPv4). Distinct by (configuration, matrix cell)",
 		assumptions: assume("0.0.0.0 inside option 54 is not classified by the statement: only no-crash is required there", "message types the server itself never answers (C12) are expected to stay unanswered"),
-		runs:        []runSpec{{engine: "sid", qBatches: 16, qCases: 4, tBatches: 64, tCases: 80}, wireVarRun()},
+		runs:        []runSpec{{engine: "sid", qBatches: 16, qCases: 4, tBatches: 64, tCases: 1200}, wireVarRun()},
 		guards:      []guard{{"sid.dropped", 1000, "discard rows"}, {"sid.answered", 300, "answered rows"}},
 	},
 	"C15": {
 		level:       "exploration",
 		rule:        "full decision table giaddr {0, routable, link-local, broadcast} x ciaddr {same} x broadcast flag x reply {OFFER, ACK, NAK produced by a plugin} x yiaddr {0, assigned} x listener {bound to ve0, unbound} x arrival interface {ve0, vf0} = 768 cells, each with fresh random addresses/MAC/xid, 3 (quick) / 12 (thorough) repetitions, inside a private network namespace with two veth pairs; UDP replies observed at the server's WriteTo (destination, port, IP_PKTINFO ifindex), link-level unicasts observed as real frames sniffed on the veth peers (which link, destination MAC, destination IP, UDP ports, payload). Oracle: the RFC 2131 section 4.1 cascade written as an independent table. Distinct by (chain, cell)",
 		assumptions: assume("hardware-address length 6 on the link-level path (an Ethernet frame cannot carry other lengths)", "needs CAP_NET_ADMIN to create the namespace; without it the check is inconclusive"),
-		runs:        []runSpec{{engine: "addr4", netns: true, parallel: 8, qBatches: 3, qCases: 8, tBatches: 64, tCases: 8}, wireRun(2, 6), raceSlice()},
+		runs:        []runSpec{{engine: "addr4", netns: true, parallel: 8, qBatches: 3, qCases: 8, tBatches: 64, tCases: 48}, wireRun(2, 6), raceSlice()},
 		guards:      []guard{{"addr4.rows.l2", 40, "link-level rows"}, {"addr4.rows.udp_pinned", 300, "pinned rows"}, {"addr4.rows.udp", 1000, "udp rows"}},
 	},
 	"C16": {
@@ -223,7 +223,7 @@ var specs = map[string]*propSpec{
 		level:       "exploration",
 		rule:        "each case is one option plugin with an argument vector from its accepted grammar (1-4 addresses, masks /1-/32, MTU 68-65535, durations, 1-4 domains with labels up to 63 bytes, 1-4 routes incl. /0 and /32, tftp/http/https/ftp URLs with and without params), hosted alone in a fresh server process, and 48 requests (DISCOVER/REQUEST or SOLICIT/REQUEST/RENEW/INFORMATION-REQUEST; option 55 / ORO = random subsets of the relevant codes in random order, or absent; option 116 present or not; yiaddr assigned by an earlier handler or not; option 51 already set or not). Differential oracle: reply with the plugin vs reply of the same chain without it must differ exactly by the table in model/opts.go (value encoded independently from the RFCs, present once, untouched otherwise, chain continues/stops/drops as stated). Non-trivial = every (configuration, request) pair evaluated; distinct by (plugin, args, request list, flags)",
 		assumptions: assume("argument values outside the wire range (MTU > 65535, durations >= 2^32 s) are outside 'in-range' and not generated", "DHCPv4 request lists may name a code more than once (a quarter of them do); DHCPv6 option request lists are sets - the statement's quantifier says subsets, and the pinned nbp code answers a repeated code with a repeated option, which 'once' and 'subsets' leave unclassified; an empty option 55 is not generated", "nbp ends the chain in the code; whether it should is not part of the statement and is not asserted"),
-		runs:        []runSpec{{engine: "opt", qBatches: 16, qCases: 30, tBatches: 64, tCases: 600}, wireVarRun()},
+		runs:        []runSpec{{engine: "opt", qBatches: 16, qCases: 30, tBatches: 64, tCases: 1200}, wireVarRun()},
 		guards:      []guard{{"opt.configs.ipv6only", 3, "ipv6only configurations"}, {"opt.configs.autoconfigure", 3, "autoconfigure"}, {"opt.configs.dns", 3, "dns"}, {"opt.configs.lease_time", 3, "lease_time"}},
 	},
 	"C18": {
